@@ -12,6 +12,7 @@ import (
 	"errors"
 	"fmt"
 	"net/http"
+	"strings"
 	"sync"
 	"testing"
 	"testing/synctest"
@@ -34,6 +35,12 @@ type LinkScript struct {
 	// NoStandalone (streamable): the client is configured with DisableStandaloneSSE, so no other stream of
 	// the session notices that the server is gone.
 	NoStandalone bool `json:"no_standalone,omitempty"`
+	// OneStream (streamable): the server stays; only the response streams of the calls still waiting are
+	// cut, and their handlers answer 5 s later. Whether such a call then fails or is answered over a resumed
+	// stream depends on the event store and the retry budget; it must return either way.
+	OneStream bool   `json:"one_stream,omitempty"`
+	Retries   int    `json:"retries,omitempty"` // StreamableClientTransport.MaxRetries (0: default, <0: none)
+	Version   string `json:"version,omitempty"` // protocol version of the session ("" = 2025-06-18)
 }
 
 func genLinks(rt *rapid.T) LinkScript {
@@ -46,6 +53,11 @@ func genLinks(rt *rapid.T) LinkScript {
 	}
 	s.NoStandalone = rapid.Bool().Draw(rt, "no_standalone")
 	s.Answer = rapid.IntRange(0, s.Calls).Draw(rt, "answer")
+	if strings.HasPrefix(s.Link, "stateful") {
+		s.OneStream = rapid.IntRange(0, 2).Draw(rt, "one_stream") == 0
+		s.Retries = rapid.SampledFrom([]int{0, 0, -1, -1, 1}).Draw(rt, "retries")
+		s.Version = rapid.SampledFrom([]string{"", "2025-11-25", "2025-11-25"}).Draw(rt, "version")
+	}
 	return s
 }
 
@@ -101,7 +113,7 @@ func runLinksInBubble(s LinkScript) (res vt.Result) {
 			opts.EventStore = mcp.NewMemoryEventStore(nil)
 		}
 		tr = &memhttp.Transport{Handler: mcp.NewStreamableHTTPHandler(func(*http.Request) *mcp.Server { return server }, opts)}
-		ct = &mcp.StreamableClientTransport{Endpoint: "http://mcp.example/mcp", HTTPClient: tr.Client(), DisableStandaloneSSE: s.NoStandalone}
+		ct = &mcp.StreamableClientTransport{Endpoint: "http://mcp.example/mcp", HTTPClient: tr.Client(), DisableStandaloneSSE: s.NoStandalone, MaxRetries: s.Retries}
 	}
 	if tr != nil {
 		tr.Fail = func(r *http.Request) error {
@@ -114,11 +126,15 @@ func runLinksInBubble(s LinkScript) (res vt.Result) {
 		}
 	}
 	client := mcp.NewClient(&mcp.Implementation{Name: "cli", Version: "1"}, nil)
+	version := s.Version
+	if version == "" {
+		version = "2025-06-18"
+	}
 	var cs *mcp.ClientSession
 	cerr := make(chan error, 1)
 	go func() {
 		var e error
-		cs, e = client.Connect(context.Background(), ct, &mcp.ClientSessionOptions{ProtocolVersion: "2025-06-18"})
+		cs, e = client.Connect(context.Background(), ct, &mcp.ClientSessionOptions{ProtocolVersion: version})
 		cerr <- e
 	}()
 	synctest.Wait()
@@ -193,6 +209,50 @@ func runLinksInBubble(s LinkScript) (res vt.Result) {
 			res.Failf("call %d over a healthy %s link: done=%v err=%v result=%q", k, s.Link, isDone(calls[k]), calls[k].err, calls[k].text)
 			return
 		}
+	}
+	if s.OneStream {
+		// ---- only the streams of the waiting calls break; the server and the rest of the session stay ----
+		cutErr := memhttp.ErrCut
+		if s.CutKind == "eof" {
+			cutErr = nil
+		}
+		for _, ex := range tr.Exchanges() {
+			if ex.Method == "POST" && !ex.HandlerDone() {
+				ex.Cut(cutErr)
+			}
+		}
+		synctest.Wait()
+		time.Sleep(5 * time.Second)
+		for k := s.Answer; k < s.Calls; k++ {
+			close(gate(k))
+		}
+		for waited := time.Duration(0); waited <= 20*time.Minute; waited += 10 * time.Second {
+			synctest.Wait()
+			all := true
+			for _, c := range calls {
+				all = all && isDone(c)
+			}
+			if all {
+				break
+			}
+			time.Sleep(10 * time.Second)
+		}
+		for _, c := range calls[s.Answer:] {
+			switch {
+			case !isDone(c):
+				res.Failf("call %d is still blocked 20 minutes after its response stream broke (%s) over %s (MaxRetries %d, protocol %s), although its handler has answered and the session is otherwise healthy", c.k, s.CutKind, s.Link, s.Retries, version)
+			case c.err == nil && c.text != fmt.Sprintf("answer-%d", c.k):
+				res.Failf("call %d returned %q, want answer-%d or an error", c.k, c.text, c.k)
+			case c.err == nil:
+				res.Class("answered_over_a_resumed_stream")
+			default:
+				res.Class("failed_when_its_stream_broke")
+			}
+		}
+		res.Desc = fmt.Sprintf("%s|%d|%s|%d|one|%d|%s|%v", s.Link, s.Calls, s.CutKind, s.Answer, s.Retries, version, s.NoStandalone)
+		res.NonTrivial = s.Calls-s.Answer >= 1
+		res.Class("link_"+s.Link, "cut_"+s.CutKind, "only_the_calls_streams_break")
+		return res
 	}
 	// ---- the server side goes away ----
 	mu.Lock()
